@@ -133,6 +133,13 @@ impl C19 {
                 v.finding = Some("S6b-swap-path-d-threshold".into());
                 v.truncate = false;
             }
+            // envelope S11: outside the band by at most 6 smallest units of the ask token
+            let six = &unit_j * 6u32 * &r;
+            let beyond = if g > hi_b { &g - &hi_b } else if lo_b > g { &lo_b - &g } else { BigUint::zero() };
+            if beyond <= six {
+                v.finding = Some("S11-quote-accuracy-within-8-units".into());
+                v.truncate = false;
+            }
             return Err(v);
         }
         c.stats.sig(&[
